@@ -325,7 +325,9 @@ func (e *s3env) send(f Frame) {
 // synStream sends SYN_STREAM(id) for path; extra = additional header pairs.
 func (e *s3env) synStream(id uint32, method, path string, fin bool, extra ...string) {
 	f := &SynStreamFrame{StreamId: StreamId(id), Headers: make(http.Header)}
-	f.Headers.Set(headerMethod, method)
+	if method != "" { // "" = leave the :method pseudo-header out
+		f.Headers.Set(headerMethod, method)
+	}
 	f.Headers.Set(headerPath, path)
 	f.Headers.Set(headerVersion, "HTTP/1.1")
 	f.Headers.Set(headerHost, "example.org")
